@@ -152,6 +152,7 @@ type ytask struct {
 	// invoke / return stamps of the recorded history (one task runs between two observations, so the
 	// order of returns is exact)
 	callStep, retStep int
+	waitsFor          *lockProbe // the mutex the task takes with its next statement (nil: none)
 }
 
 func beDist(id [32]byte, node enode.ID) *big.Int {
@@ -251,6 +252,7 @@ func runStore(seed uint64, engine, class string) {
 		s.ids = append(s.ids, id)
 	}
 	spebble.VerifYield = s.yield
+	spebble.VerifYieldLockHook = s.yieldLock
 	s.disk = newSimDisk()
 	s.open(true)
 	w.abstract("cfg node=%d idf=%d big=%d", p.cfg("node"), p.cfg("idflavour"), p.cfg("big"))
@@ -721,18 +723,36 @@ func (s *storeSim) yield(site string) {
 	if t == nil {
 		return
 	}
-	// never park a task that holds a sync.Mutex of the store: a waiter on sync.Mutex is not
-	// durably blocked, so the bubble could not reach quiescence
-	for _, l := range s.locks {
-		if l.held() {
-			s.w.res.Probes["yield_skipped_lock_held"]++
-			return
-		}
+	// A waiter on sync.Mutex is not durably blocked, so nobody may ever block on a mutex of the store while
+	// another task holds it parked. The instrumentation announces every Lock() statement (yieldLock): the
+	// scheduler does not resume a task that is about to take a mutex somebody holds. With that a task may
+	// park inside its critical section, and the lock-free readers (Get) interleave with it there.
+	t.site = site
+	t.parked = true
+	<-t.resume
+	t.parked = false
+}
+
+// yieldLock: the calling task's next statement takes mu.
+func (s *storeSim) yieldLock(site string, mu any) {
+	if !s.yieldOn {
+		return
+	}
+	t := s.tasks[verifGoid()]
+	if t == nil {
+		return
+	}
+	switch m := mu.(type) {
+	case *sync.Mutex:
+		t.waitsFor = &lockProbe{mu: m}
+	case *sync.RWMutex:
+		t.waitsFor = &lockProbe{rw: m}
 	}
 	t.site = site
 	t.parked = true
 	<-t.resume
 	t.parked = false
+	t.waitsFor = nil
 }
 
 // runTasks runs the functions as tasks of the seeded yield scheduler: every task parks before its first
@@ -770,7 +790,7 @@ func (s *storeSim) runTasks(sched *prng, fns []func()) (trace []byte, stuck bool
 			}
 			if !t.done {
 				alldone = false
-				if t.parked {
+				if t.parked && (t.waitsFor == nil || !t.waitsFor.held()) {
 					runnable = append(runnable, i)
 				}
 			}
